@@ -12,6 +12,7 @@ func init() {
 	register("C11", func(c *core.Ctx, tier string) {
 		c11Overlap(c)
 		c11SingleWriter(c)
+		lockBalance(c, "C11.3b", "types", "transports")
 		c11OkAfterProcessing(c)
 		answerOrPark(c, "C11.5", true)
 		c11ReleaseAtClose(c, "C11.6")
